@@ -1,5 +1,6 @@
 import Lean.Data.Json
 import Verif.Model.Carrier
+import Verif.Model.Label
 import Verif.Drv.Json
 import Verif.Drv.Http
 import Verif.Drv.StdioIn
@@ -24,7 +25,9 @@ readers of `Drv.Http`.
  "sse":{"pre":[{"k":"endpoint"|"keepalive"|"comment","d":str,"crlf":b}…],"crlf":[b…],"cuts":[n…],"acks":[n…]} | null}
  optional, instead of the model's own rendering: "stdio_raw":{"hex":"…","cuts":[n…]},
  "json_raw" / "httpsse_raw": [{"id":I|null,"status":n,"sess":…,"text":[cp…]}…]   (the very bytes / bodies the server wrote)
--> {"stdio":[V…],"json":[V…]|null,"httpsse":[V…],"sse":[V…]|null}
+ optional: "json_labels" / "httpsse_labels": [{"ct":[cp…]|null,"bom":b}…]   the declared metadata of each reply
+   (`Model.Label`: Content-Type value as written, a BOM in front of the bytes); the replies are `relabelAll`ed
+-> {"stdio":[V…],"json":[V…]|null,"httpsse":[V…],"sse":[V…]|null,"bodies_ok":b,"labels_ok":b}
    V = {"made":true} | {"id":I|null,"method":[cp…]|null,"params":T|null,"result":T|null,"error":T|null}
 ```
 -/
@@ -174,6 +177,17 @@ def getRawPosts (ct : HttpDecide.CType) (j : Json) : Except String (List (HttpDe
     pure ((⟨c.id⟩ : HttpDecide.Req), HttpDecide.Behaviour.resp
       { status := c.status, ctype := ct, session := c.session, body := { text := text, utf8 := true } }))
 
+/-- `[{"ct":[cp…]|null,"bom":b}…]` (absent: no labels, the replies as `HttpDecide` has them) -/
+def getLabels (j : Json) (k : String) : Except String (List Label.Label) :=
+  match optField j k with
+  | none => pure []
+  | some a => do
+    (← a.getArr?).toList.mapM (fun l => do
+      let ct ← match optField l "ct" with
+        | none => pure none
+        | some c => do pure (some (← Verif.Drv.Json.cpsToChars c))
+      pure ({ header := ct, bomFirst := (l.getObjValAs? Bool "bom").toOption.getD false } : Label.Label))
+
 def handle (j : Json) : Except String Json := do
   let stj ← j.getObjVal? "style"
   let st : Json.Style := ⟨← stj.getObjValAs? Bool "sp", ← stj.getObjValAs? Bool "ascii"⟩
@@ -191,20 +205,28 @@ def handle (j : Json) : Except String Json := do
       let cuts := (← sj.getObjValAs? (Array Nat) "cuts").toList
       pure (stdioObserve realStdio (cutAt (stdioBytes W conv crlf) cuts 0))
   -- HTTP + JSON
-  let json ← match optField j "json_raw" with
-    | some rj => do pure (transcript (httpObserve realHttp none (← getRawPosts .json rj)))
+  let jl ← getLabels j "json_labels"
+  let (json, jsonOk) ← match optField j "json_raw" with
+    | some rj => do
+      let posts ← getRawPosts .json rj
+      pure (transcript (httpObserve realHttp none (Label.relabelAll jl posts)), Label.agreeAll jl posts)
     | none =>
       match optField j "json" with
-      | none => pure Json.null
+      | none => pure (Json.null, true)
       | some cj => do
         let choices ← (← cj.getArr?).toList.mapM getPost
-        pure (transcript (httpObserve realHttp none (zipD PostChoice.dflt (jsonPost W) conv choices)))
+        let posts := zipD PostChoice.dflt (jsonPost W) conv choices
+        pure (transcript (httpObserve realHttp none (Label.relabelAll jl posts)), Label.agreeAll jl posts)
   -- HTTP + SSE
-  let (httpsse, bodiesOk) ← match optField j "httpsse_raw" with
-    | some rj => do pure (httpObserve realHttp none (← getRawPosts .sse rj), true)
+  let hl ← getLabels j "httpsse_labels"
+  let (httpsse, bodiesOk, sseOk) ← match optField j "httpsse_raw" with
+    | some rj => do
+      let posts ← getRawPosts .sse rj
+      pure (httpObserve realHttp none (Label.relabelAll hl posts), true, Label.agreeAll hl posts)
     | none => do
       let bodies ← (← j.getObjValAs? (Array Json) "httpsse").toList.mapM getBody
-      pure (httpObserve realHttp none (zipD SseBodyChoice.dflt (sseBodyPost W) conv bodies), bodies.all SseBodyChoice.ok)
+      let posts := zipD SseBodyChoice.dflt (sseBodyPost W) conv bodies
+      pure (httpObserve realHttp none (Label.relabelAll hl posts), bodies.all SseBodyChoice.ok, Label.agreeAll hl posts)
   -- legacy SSE
   let sse ← match optField j "sse" with
     | none => pure Json.null
@@ -215,6 +237,6 @@ def handle (j : Json) : Except String Json := do
       let acks := (← ej.getObjValAs? (Array Nat) "acks").toList
       pure (transcript (sseObserve realSse (sseShape W conv acks) (cutAt (sseText W pre conv ecrlf) ecuts 0)))
   return Json.mkObj [("stdio", transcript stdio), ("json", json), ("httpsse", transcript httpsse), ("sse", sse),
-    ("bodies_ok", Json.bool bodiesOk)]
+    ("bodies_ok", Json.bool bodiesOk), ("labels_ok", Json.bool (jsonOk && sseOk))]
 
 end Verif.Drv.Carrier
